@@ -13,8 +13,15 @@ Verdict(r) ==
           /\ RemainingOk(r.a, r.b, r.has_b, r.k)
           /\ (r.has_b => (SameAttrs(r.a, r.b) /\ r.ntask_b = 1 + r.nproto))
        THEN "ok" ELSE "bad"
+(* bad for another reason than the occurrences read back (attributes, lost or surplus tasks, a crash): what the known findings *)
+(* about written schedules do not cover                                                                                         *)
+Other(r) ==
+  IF "crash" \in DOMAIN r \/ "timeout" \in DOMAIN r \/ "noevent" \in DOMAIN r THEN TRUE
+  ELSE IF r.beyond_zone_data THEN FALSE
+  ELSE LET x == ExpectedAttrs(r.ev, r.cal) IN
+       ~(/\ Differ(r.a, x) = {} /\ r.ntask_a = 1 /\ r.lost = 0 /\ (r.has_b => (SameAttrs(r.a, r.b) /\ r.ntask_b = 1 + r.nproto)))
 N == Len(Tr)
 BadSet == {k \in 1..N : Verdict(Tr[k]) = "bad"}
 SkipSet == {k \in 1..N : Verdict(Tr[k]) = "skip"}
-ASSUME JsonSerialize(IOEnv.OUT, [n |-> N, nbad |-> Cardinality(BadSet), nskip |-> Cardinality(SkipSet), bad |-> BadSet])
+ASSUME JsonSerialize(IOEnv.OUT, [n |-> N, nbad |-> Cardinality(BadSet), nskip |-> Cardinality(SkipSet), bad |-> BadSet, other |-> {k \in BadSet : Other(Tr[k])}])
 =============================================================================
